@@ -119,7 +119,7 @@ def run_case(ctx, st, rng, key, wrong_key, key_id):
     s, g = st["sealed"], st["given"]
     n = LENS[s["len"]]
     payload = payload_of(n, rng.randrange(1 << 30))
-    iv = bytes(rng.randrange(256) for _ in range(12))
+    iv = bytes(rng.randrange(256) for _ in range(rng.choice([12, 12, 12, 16, 8, 32, 1])))   # GCM takes a nonce of any length
     extra = rng.sample(EXTRA_POOL, s["extra"])
     attrs = E.std_attrs(key, iv, key_id, extra=extra)
     order = list(range(len(attrs)))
